@@ -481,3 +481,69 @@ func TestScenarios(t *testing.T) {
 		report(t, s, res, func() { t.Skip("known") })
 	})
 }
+
+// TestTargetReturnsEarly: "IsStarted/IsDone become true when the effect starts/returns" holds also
+// when callers are still queued on the target at that moment (more outstanding requests than the
+// request buffer of 5): the target serves a few requests, its effect returns, IsDone must become
+// true, and the requests it did serve were paired correctly.
+func TestTargetReturnsEarly(t *testing.T) {
+	if vlib.Replaying() {
+		t.Skip()
+	}
+	for rep := 0; rep < vlib.Pick(30, 300); rep++ {
+		callers := 6 + rep%3
+		serve := rep % 4
+		var target *fpgo.CorDef[int]
+		var served []pair
+		returned := make(chan struct{})
+		target = fpgo.CorNewGenerics[int](func() {
+			defer close(returned)
+			for k := 0; k < serve; k++ {
+				x := target.YieldRef(7000 + k)
+				served = append(served, pair{x, 7000 + k})
+			}
+		})
+		answers := make([]int64, callers)
+		for i := 0; i < callers; i++ {
+			i := i
+			var c *fpgo.CorDef[int]
+			c = fpgo.CorNewGenerics[int](func() {
+				atomic.StoreInt64(&answers[i], int64(c.YieldFrom(target, (i+1)*1000))+1)
+			})
+			c.Start()
+		}
+		// let the requests pile up, then start the target
+		for g := 0; g < 50; g++ {
+			runtime.Gosched()
+		}
+		target.Start()
+		vlib.S().Eval("returns-early")
+		vlib.S().NonTrivial("returns-early", fmt.Sprintf("callers=%d served=%d", callers, serve))
+		select {
+		case <-returned:
+		case <-time.After(vlib.StallBudget()):
+			vlib.Fail(t, "C14/returns-early", "callers=%d: the target effect (serving %d requests) did not return", callers, serve)
+			return
+		}
+		if !vlib.WaitUntil(vlib.StallBudget(), target.IsDone) {
+			vlib.WriteReplay("C14/returns-early", map[string]int{"callers": callers, "serve": serve})
+			if vlib.Fail(t, "C14/lifecycle", "callers=%d served=%d: IsDone() is still false %v after the target's effect returned (callers were still queued on it)", callers, serve, vlib.StallBudget()) {
+				continue
+			}
+			return
+		}
+		// the served requests: x belongs to a caller, and that caller (once it has its answer) got y
+		for _, p := range served {
+			ci := p.x/1000 - 1
+			if ci < 0 || ci >= callers || p.x%1000 != 0 {
+				vlib.Fail(t, "C14/invented", "target took %d which no caller sent", p.x)
+				return
+			}
+			ok := vlib.WaitUntil(vlib.StallBudget(), func() bool { return atomic.LoadInt64(&answers[ci]) != 0 })
+			if got := atomic.LoadInt64(&answers[ci]) - 1; !ok || got != int64(p.y) {
+				vlib.Fail(t, "C14/misrouted", "caller %d was served (target yielded %d for its request) but received %d (answered=%v)", ci, p.y, got, ok)
+				return
+			}
+		}
+	}
+}
